@@ -413,6 +413,25 @@ func Generate(g *pk.Gen, prop string) {
 				job(mk(multiEdit(g, ve), randCfg(g, msgEncrypt4, 40), &e0, "enc;multi-edit"), g.Rng.Intn(3))
 			}
 		}
+		// the server stalls in the middle of a reply (no end-of-message): Login must give up with its caller's context
+		stall := func(r [][]Item, cfg Cfg, e *enc, tag string) {
+			sc := mk(r, cfg, e, tag)
+			sc.Stall = true
+			job(sc, g.Rng.Intn(3))
+		}
+		stall([][]Item{{LoginAck(logSucceed, "ASE")}}, randCfg(g, 0, 30), nil, "plain;stall-after-ack")
+		stall([][]Item{{LoginAck(logFail, "ASE")}}, randCfg(g, 0, 30), nil, "plain;stall-after-reject")
+		stall([][]Item{{LoginAck(logSucceed, "ASE"), Done(0x10)}}, randCfg(g, 0, 30), nil, "plain;stall-after-done")
+		for i, r2 := range [][]Item{{LoginAck(logFail, "ASE")}, {LoginAck(logFail, "ASE"), Capability(defaultCaps)}, {Eed(false, 4002), LoginAck(logFail, "ASE")},
+			{LoginAck(logSucceed, "ASE")}, {LoginAck(logSucceed, "ASE"), Capability(defaultCaps)}, {Eed(false, 4002)}} {
+			v := validEnc(e0)
+			v[1] = r2
+			stall(v, randCfg(g, msgEncrypt4, 40), &e0, fmt.Sprintf("enc;stall-second-reply;%d", i))
+		}
+		{
+			v := validEnc(e0)
+			stall([][]Item{v[0][:3]}, randCfg(g, msgEncrypt4, 40), &e0, "enc;stall-first-reply")
+		}
 		// unsupported / odd modes
 		for _, m := range []int{1, 14, 30, 2, 36} {
 			job(mk(ve, randCfg(g, m, 30), &e0, fmt.Sprintf("mode;%d", m)), 0)
